@@ -89,23 +89,23 @@ def check_raw_reads(ctx):
     ctx.ob('R3', 'gemdat', f'{n} raw coords reads outside accessors', True, 'enumerated over the whole package')
 
 
-def check_cumulative(ctx):
+def check_cumulative(ctx, rule='R4'):
     fi = ctx.fn(f'{TRAJ}.cumulative_displacements')
     it = ctx.entry(fi.qualname)
     gs = all_geos(it.result)
     ok = gs == {('FDIFF', 'CUM')}
-    ctx.ob('R4', fi, 'return value', True if ok else (None if not gs else False),
+    ctx.ob(rule, fi, 'return value', True if ok else (None if not gs else False),
            'running sum over the frame axis of minimum-image steps' if ok else
            f'not built from minimum-image steps accumulated over frames: {", ".join(geo_text(g) for g in gs) or "unknown"}'
            ' (wrapped positions differ by lattice translations, so the result changes under whole-cell shifts)')
     fd = ctx.fn(f'{TRAJ}.distances_from_base_position')
     it2 = ctx.entry(fd.qualname)
     in_scope = lambda f: f.qualname in (fd.qualname, 'gemdat.trajectory._lengths', fi.qualname)
-    nerr = kind_errors(ctx, 'R4', it2, in_scope)
+    nerr = kind_errors(ctx, rule, it2, in_scope)
     gs = all_geos(it2.result)
     if not nerr:
         ok = gs == {('DIST',)}
-        ctx.ob('R4', fd, 'return value', True if ok else (None if not gs else False),
+        ctx.ob(rule, fd, 'return value', True if ok else (None if not gs else False),
                'metric lengths of the unwrapped displacements' if ok else f'returned value is {", ".join(geo_text(g) for g in gs)}')
     # _lengths: contraction with the metric tensor on both sides
     fl = ctx.fn('gemdat.trajectory._lengths')
@@ -116,7 +116,7 @@ def check_cumulative(ctx):
             lens_ret = it2.value_of(r.value)
     ok = lens_ret is not None and lens_ret.geo == ('DIST',)
     if not nerr:
-        ctx.ob('R4', fl, 'return value', True if ok else None,
+        ctx.ob(rule, fl, 'return value', True if ok else None,
                'sqrt(v . G . v) with the metric tensor G' if ok else 'the length formula was not recognised as a metric contraction')
     # the vectors measured are the cumulative displacements
     calls = [e for e in it2.events if e['tag'] == 'call' and e['callee'] == fl.qualname]
@@ -124,7 +124,7 @@ def check_cumulative(ctx):
         a = e['args'][0] if e['args'] else e['kwargs'].get('vectors')
         g = a.geo if a is not None else None
         ok = g == ('FDIFF', 'CUM')
-        ctx.ob('R4', fd, e['node'], True if ok else (None if g is None else False),
+        ctx.ob(rule, fd, e['node'], True if ok else (None if g is None else False),
                'lengths of cumulative displacements' if ok else f'lengths are taken of {geo_text(g)}')
 
 
